@@ -18,6 +18,7 @@ import (
 	"context"
 	"errors"
 	"fmt"
+	"math"
 	"sort"
 	"strings"
 	"sync"
@@ -517,11 +518,12 @@ func (d *Datastore) runDeviationUpdate(ctx context.Context, dm map[string]sdcpb.
 			continue
 		}
 
+		// the intents of every priority: the ones below the ruling priority are what OVERRULED is reported for
 		intentsUpdates := d.cacheClient.Read(ctx, d.Name(), &cache.Opts{
 			Store:         cachepb.Store_INTENDED,
 			Owner:         "",
 			Priority:      0,
-			PriorityCount: 0,
+			PriorityCount: math.MaxInt32,
 		}, [][]string{upd.GetPath()}, 0)
 		if len(intentsUpdates) == 0 {
 			log.Debugf("%s: has unhandled config %v: %v", d.Name(), upd.GetPath(), v)
